@@ -11,8 +11,14 @@ Spec:   CimEq.tla   requirement: abstract object trees, four-valued AbsEq,
                     hash) checked by TLC against AbsEq on ALL same-kind pairs;
                     five regression configurations must fail
         CimEqHeap.tla  heap state machine Copy / copy.copy / deepcopy /
-                    pickle / Mutate with Independence + Tight; three regression
-                    configurations must fail
+                    pickle / Mutate with Independence + Tight; four regression
+                    configurations must fail (incl. copy() of a dictionary
+                    holding the unnamed key None through the constructor);
+                    Mode "hist": histories hash() / every NocaseDict mutator /
+                    in-place change of a reachable child object on the object
+                    itself with HashLawful after every step (hash equals that
+                    of a freshly built equal object); two cached variants
+                    (HashCache subset / all) must fail
         CimEqGen.tla   TLC prints the universe, the near pairs and the
                     classes of the coarsest admissible ==
         CimEqTrace.tla TraceKit: every observed vector is judged by TLC
@@ -189,6 +195,28 @@ def run(ctx):
                      ("Independence",),
                      "copy() shares an EMPTY array value (cimvalue returns "
                      "the empty list itself)", sens)
+    check_regression(ctx, "CimEqHeap", "CimEqHeapRegCtor.cfg",
+                     ("CopyEqual",),
+                     "NocaseDict.copy() re-inserts the items through the "
+                     "constructor before the unnamed key is allowed: raises "
+                     "for a dictionary holding the key None", sens)
+    ctx.tlc("CimEqHeap",
+            "CimEqHeapHist.cfg" if quick else "CimEqHeapHistBig.cfg",
+            coverage=False,
+            label="heap model, histories: hash() / NocaseDict mutators / "
+            "in-place change of reachable cells, <=%d steps; hash equals the "
+            "hash of a freshly built equal object after every step" %
+            (2 if quick else 3))
+    check_regression(ctx, "CimEqHeap", "CimEqHeapRegCacheSubset.cfg",
+                     ("HashLawful",),
+                     "hash value cached in NocaseDict, dropped only in "
+                     "__setitem__/__delitem__/pop (not in clear/popitem)",
+                     sens)
+    check_regression(ctx, "CimEqHeap", "CimEqHeapRegCacheAll.cfg",
+                     ("HashLawful",),
+                     "hash value cached in NocaseDict, dropped by all its "
+                     "mutators: stale after an in-place change of a contained "
+                     "object", sens)
     ctx.extra["sensitivity"] = sens
 
     # ---- 2. abstract inputs from TLC --------------------------------------
@@ -213,6 +241,14 @@ def run(ctx):
     behs = [vlib.unset(v[1]) for v in rb.printed("BEH")]
     if not behs:
         raise vlib.MachineryError("CimEqHeap printed no behaviours")
+    rh = ctx.tlc("CimEqHeap", "CimEqHeapHistEmit2.cfg",
+                 workers=1, count=False,
+                 label="history emission: every history after which a never-"
+                 "dropped hash cache would be stale")
+    hbehs = [vlib.unset(v[1]) for v in rh.printed("BEH")]
+    if not hbehs:
+        raise vlib.MachineryError("CimEqHeap printed no histories")
+    ctx.extra["tlc_heap_histories"] = len(hbehs)
     ctx.extra["universe_objects"] = {k: len(v) for k, v in objs.items()}
     ctx.extra["tlc_near_pairs"] = len(near)
     ctx.extra["tlc_near_pairs_by_AbsEq"] = {
@@ -221,7 +257,16 @@ def run(ctx):
     ctx.extra["tlc_copy_shape_classes"] = len(shapes)
     ctx.extra["tlc_heap_behaviours"] = len(behs)
 
-    pairs, triples, copies = [], [], []
+    pairs, triples, copies, hists = [], [], [], []
+
+    def add_hist_walk(node, origin, per_cell=2):
+        seed, wseed = rng.randrange(10 ** 9), rng.randrange(10 ** 9)
+        evs = H.hist_walk(builder(node, seed), random.Random(wseed),
+                          per_cell)
+        for idx, ev in enumerate(evs):
+            hists.append(Vec(ev, origin, {"hist": "walk", "node": node,
+                                          "seed": seed, "wseed": wseed,
+                                          "per_cell": per_cell, "idx": idx}))
 
     def add_pair(na, nb, origin):
         a = H.concretise(na, rng)
@@ -294,6 +339,7 @@ def run(ctx):
             if chosen is None:
                 chosen = (i, seed, proto)
         i, seed, proto = chosen
+        add_hist_walk(objs[k][i], "universe:shape:history")
         if (k, i) in walked and \
                 (not hasattr(proto, "copy") or H.ctor_stable(proto)):
             continue
@@ -312,6 +358,29 @@ def run(ctx):
     for root in H.HEAP_ROOTS:
         copies += walker_events(H.heap_root_node(root),
                                 rng.randrange(10 ** 9), origin="heap:walk")
+    # histories printed by TLC, on the object itself
+    nohist = 0
+    for b in hbehs:
+        node = H.heap_root_node(b["root"])
+        # the concrete call behind an abstract step is chosen at random:
+        # thorough replays every history several times
+        for _ in range(1 if quick else 5):
+            seed = rng.randrange(10 ** 9)
+            ev = H.history_event(builder(node, seed), b["muts"],
+                                 random.Random(seed))
+            if ev is None:
+                nohist += 1
+                continue
+            hists.append(Vec(ev, "heap:history",
+                             {"hist": "beh", "root": b["root"],
+                              "muts": b["muts"], "seed": seed}))
+    if nohist:
+        SKIPPED["TLC history with a step that has no counterpart on the "
+                "concrete root object"] = nohist
+    for root in H.HEAP_ROOTS:
+        for _ in range(1 if quick else 4):
+            add_hist_walk(H.heap_root_node(root), "heap:walk:history",
+                          per_cell=2 if quick else 6)
 
     # ---- 5. seeded random rich objects ------------------------------------
     g = H.RichGen(rng)
@@ -349,6 +418,7 @@ def run(ctx):
                 copies += walker_events(n, rng.randrange(10 ** 9),
                                         origin="rich:copy", maxcells=8,
                                         rng=rng)
+                add_hist_walk(n, "rich:history", per_cell=1)
             elif k == "DateTime":
                 copies += walker_events(n, 1, origin="rich:copy")
 
@@ -356,10 +426,11 @@ def run(ctx):
     judge(ctx, pairs, "pair")
     judge(ctx, triples, "triple")
     judge(ctx, copies, "copy")
+    judge(ctx, hists, "hist")
     bound = {}
     nmut = 0
     ineffective = 0
-    for v in pairs + triples + copies:
+    for v in pairs + triples + copies + hists:
         e = v.event
         key = e["ev"] + ":" + (e.get("k") or e["a"]["k"]) + \
             (":" + e["m"] if e["ev"] == "copy" else "")
@@ -371,6 +442,7 @@ def run(ctx):
     ctx.actions_bound = bound
     ctx.extra["vectors"] = {"pairs": len(pairs), "triples": len(triples),
                             "copies": len(copies),
+                            "histories": len(hists),
                             "mutations_of_copies": nmut,
                             "mutations_without_effect_on_copy": ineffective}
     ctx.extra["skipped"] = dict(SKIPPED)
@@ -378,9 +450,10 @@ def run(ctx):
         t: sum(1 for v in pairs if v.event["eab"] == t) for t in "TFE"}
     ctx.exhaustive = True
     ctx.extra["exhaustive_scope"] = (
-        "TLC: all same-kind pairs of the bounded universe (CimEqMC) and all "
-        "copy/mutate behaviours of the heap model (CimEqHeap); binding: "
-        "every near pair, every heap behaviour" +
+        "TLC: all same-kind pairs of the bounded universe (CimEqMC), all "
+        "copy/mutate behaviours and all hash/mutate histories of the heap "
+        "model (CimEqHeap); binding: every near pair, every heap behaviour, "
+        "every history on which a hash cache could be observed" +
         ("" if quick else ", every ordered pair of the small universe") +
         "; far pairs, triples and rich objects are seeded samples")
     ctx.extra["constants"] = {
@@ -389,7 +462,8 @@ def run(ctx):
                     "children in both orders, <=1 block deviating from 2 "
                     "base assignments; + special-fold names n6/n6'/n6s one "
                     "at a time, empty arrays, None-valued items",
-        "heap": "MaxRef=60, MaxMut=%d, 16 root graphs" % (1 if quick else 2)}
+        "heap": "MaxRef=60, MaxMut=%d, 19 root graphs; histories of <=%d "
+                "steps" % (1 if quick else 2, 2 if quick else 3)}
     for v in (pairs[:1] + pairs[len(pairs) // 2:len(pairs) // 2 + 1] +
               triples[:1] + copies[:1] + copies[-1:]):
         ctx.sample({"origin": v.origin, "event": slim(v.event)})
@@ -410,6 +484,12 @@ def run(ctx):
         "('Straße'/'STRASSE') may be equal or not (U) but every law binds the "
         "answer given",
         "NULL key values are built with config.IGNORE_NULL_KEY_VALUE = True",
+        "standalone NocaseDict objects are of the keybindings flavour "
+        "(allow_unnamed_keys = True); a dictionary that rejects the unnamed "
+        "key is never compared with one that holds it",
+        "histories: the object is compared with an object freshly built "
+        "from its projected public attributes; histories whose steps have no "
+        "counterpart on the concrete object are skipped (counted)",
         "projection reads public attributes through the getters; private "
         "state that no public attribute exposes is invisible",
     ]
@@ -428,6 +508,10 @@ def signature(vec, clauses):
         return "pair:%s:%s:%s" % (e["a"]["k"], cl, first_diff(e["a"], e["b"]))
     if e["ev"] == "triple":
         return "triple:%s:%s" % (e["a"]["k"], cl)
+    if e["ev"] == "hist":
+        last = e["acts"][-1] if e["acts"] else {"v": "", "steps": []}
+        return "hist:%s:%s:%s@%s" % (e["k"], cl, last["v"],
+                                     (last["steps"] or ["(self)"])[-1])
     bad = sorted({"/".join(m["steps"]) or "(self)" for m in e["muts"]
                   if m["same"] != "T"})
     detail = ",".join(bad) if "Copy.Independent" in clauses else ""
@@ -446,6 +530,15 @@ def describe(vec, clauses):
         obs = {k: e[k] for k in ("eab", "ebc", "eac", "hab", "hbc", "hac")}
         return "%s triple (%s): observed %s violates %s" % (
             e["a"]["k"], vec.origin, obs, ", ".join(clauses))
+    if e["ev"] == "hist":
+        obs = {k: e[k] for k in ("eab", "eba", "nab", "nba", "eaa", "ebb",
+                                 "h", "inset", "indict")}
+        hist = "; ".join("%s at %s" % (a["what"],
+                                       "/".join(a["steps"]) or "(self)")
+                         for a in e["acts"])
+        return "%s after the history [%s] (%s) against a freshly built " \
+               "object with the same attributes: observed %s violates %s" % (
+                   e["k"], hist, vec.origin, obs, ", ".join(clauses))
     obs = {k: e[k] for k in ("ceq", "ceqr", "cne", "h")}
     bad = [(m["what"], "/".join(m["steps"])) for m in e["muts"]
            if m["same"] != "T"]
@@ -479,6 +572,13 @@ def replay(rep):
         ev = H.pair_event(H.concretise(c["a"]), H.concretise(c["b"]))
     elif ev0["ev"] == "triple":
         ev = H.triple_event(*(H.concretise(c[x]) for x in "abc"))
+    elif c.get("hist") == "beh":
+        ev = H.history_event(builder(H.heap_root_node(c["root"]), c["seed"]),
+                             c["muts"], random.Random(c["seed"]))
+    elif c.get("hist") == "walk":
+        evs = H.hist_walk(builder(c["node"], c["seed"]),
+                          random.Random(c["wseed"]), c["per_cell"])
+        ev = evs[c["idx"]] if c["idx"] < len(evs) else None
     elif "root" in c:
         ev = H.behaviour_event(builder(H.heap_root_node(c["root"]), c["seed"]),
                                c["m"], c["muts"], random.Random(c["seed"]))
@@ -486,6 +586,10 @@ def replay(rep):
         vs = walker_events(c["node"], c["seed"], methods=[c["m"]])
         ev = next(v.event for v in vs if v.case["steps"] == c["steps"])
     print("recorded : %s" % rep["what"])
+    if ev is None:
+        print("the recorded history cannot be applied any more: "
+              "not reproduced")
+        return 0
     print("re-observed event:")
     print(json.dumps({k: v for k, v in ev.items()
                       if k not in ("a", "b", "c", "o")}, indent=1)[:3000])
